@@ -635,3 +635,54 @@ func ruleA85GroupsInDigits(c *eng.Ctx) {
 	sort.Strings(bad)
 	c.Check(len(bad) == 0, R, "internal/filters.ASCII85Decode#groups", fn.Pos(), "groups are counted in digits", strings.Join(dedupStr(bad), "; ")+": a line break inside a group shortens the group and shifts every group after it (data wrapped at a width that is not a multiple of 5 decodes to garbage)")
 }
+
+// R8.6 [C08]
+func ruleShowKeepsLineMatrix(c *eng.Ctx) {
+	const R = "R8.6-SHOW-KEEPS-LINE-MATRIX"
+	c.Rule(R, "showing text moves the text matrix only: none of the functions that handle Tj and TJ (GraphicsState.ShowText, ShowTextWithWidth, ShowTextArray, and the text extractor's showText and showTextArray) writes the text line matrix, directly or through a function it calls (SetTextMatrix is the Tm operator and sets both). Td, TD, T*, ' and \" are relative to the line matrix, so a line matrix dragged along by glyph advances or TJ adjustments starts the next line where the last string ended", 5, 0)
+	writes := map[*ssa.Function]string{}
+	fns := c.P.ModuleFuncs()
+	for _, fn := range fns {
+		if fn.Blocks == nil {
+			continue
+		}
+		eng.Instrs(fn, false, func(in ssa.Instruction) {
+			if st, ok := in.(*ssa.Store); ok {
+				if fr, ok := eng.AsField(st.Addr); ok && fr.Field == "TextLineMatrix" {
+					writes[fn] = "assigns it at " + c.P.Pos(st.Pos())
+				}
+			}
+		})
+	}
+	for changed := true; changed; {
+		changed = false
+		for _, fn := range fns {
+			if fn.Blocks == nil || writes[fn] != "" {
+				continue
+			}
+			eng.Instrs(fn, true, func(in ssa.Instruction) {
+				ci, ok := in.(ssa.CallInstruction)
+				if !ok || writes[fn] != "" {
+					return
+				}
+				if g := eng.StaticCallee(ci); g != nil && writes[g] != "" {
+					writes[fn] = "calls " + eng.FuncName(g) + " at " + c.P.Pos(ci.Pos()) + ", which " + writes[g]
+					changed = true
+				}
+			})
+		}
+	}
+	for _, name := range []string{"graphicsstate.(*GraphicsState).ShowText", "graphicsstate.(*GraphicsState).ShowTextWithWidth", "graphicsstate.(*GraphicsState).ShowTextArray", "text.(*Extractor).showText", "text.(*Extractor).showTextArray"} {
+		fn := c.P.FuncExact(name)
+		if fn == nil {
+			if r := c.P.RenamedTo(name); r != "" {
+				fn = c.P.FuncExact(r)
+			}
+		}
+		if fn == nil {
+			c.Ok(R, name+"#absent", token.NoPos, "function not present")
+			continue
+		}
+		c.Check(writes[fn] == "", R, name, fn.Pos(), "leaves the line matrix alone", "a text-showing function writes the text line matrix (it "+writes[fn]+"): the next Td, TD, T*, ' or \" starts from the end of the shown string instead of the start of the line")
+	}
+}
